@@ -1028,22 +1028,22 @@ Section LawsB.
     first [ constr_eq T U | fail 1 "statement differs from the field:" U ].
 
   Lemma statements_match :
-    api_laws A V V' clean (acc_p pa) (rh_p tag pa) (wh_p tag pa) ->
+    api_laws A V V' clean (acc_p pa) (rh_p tag pa) (wh_p tag pa) nohid nohid ->
     api_laws2 A V V' clean (acc_p pa) (rh_p tag pa) (wh_p tag pa) -> True.
   Proof.
     intros L L2.
-    same_statement (law_removeall_leaf _ _ _ _ _ _ _ L) osfs_law_removeall_leaf.
-    same_statement (law_remove_none _ _ _ _ _ _ _ L) osfs_law_remove_none.
-    same_statement (law_remove_nonempty _ _ _ _ _ _ _ L) osfs_law_remove_nonempty.
-    same_statement (law_user_create _ _ _ _ _ _ _ L) osfs_law_user_create.
-    same_statement (law_user_openfile _ _ _ _ _ _ _ L) osfs_law_user_openfile.
-    same_statement (law_user_handle _ _ _ _ _ _ _ L) osfs_law_user_handle.
-    same_statement (law_user_mkdirall _ _ _ _ _ _ _ L) osfs_law_user_mkdirall.
-    same_statement (law_user_chmod _ _ _ _ _ _ _ L) osfs_law_user_chmod.
-    same_statement (law_user_chown _ _ _ _ _ _ _ L) osfs_law_user_chown.
-    same_statement (law_user_chtimes _ _ _ _ _ _ _ L) osfs_law_user_chtimes.
-    same_statement (law_user_lchown _ _ _ _ _ _ _ L) osfs_law_user_lchown.
-    same_statement (law_user_symlink _ _ _ _ _ _ _ L) osfs_law_user_symlink.
+    same_statement (law_removeall_leaf _ _ _ _ _ _ _ _ _ L) osfs_law_removeall_leaf.
+    same_statement (law_remove_none _ _ _ _ _ _ _ _ _ L) osfs_law_remove_none.
+    same_statement (law_remove_nonempty _ _ _ _ _ _ _ _ _ L) osfs_law_remove_nonempty.
+    same_statement (law_user_create _ _ _ _ _ _ _ _ _ L) osfs_law_user_create.
+    same_statement (law_user_openfile _ _ _ _ _ _ _ _ _ L) osfs_law_user_openfile.
+    same_statement (law_user_handle _ _ _ _ _ _ _ _ _ L) osfs_law_user_handle.
+    same_statement (law_user_mkdirall _ _ _ _ _ _ _ _ _ L) osfs_law_user_mkdirall.
+    same_statement (law_user_chmod _ _ _ _ _ _ _ _ _ L) osfs_law_user_chmod.
+    same_statement (law_user_chown _ _ _ _ _ _ _ _ _ L) osfs_law_user_chown.
+    same_statement (law_user_chtimes _ _ _ _ _ _ _ _ _ L) osfs_law_user_chtimes.
+    same_statement (law_user_lchown _ _ _ _ _ _ _ _ _ L) osfs_law_user_lchown.
+    same_statement (law_user_symlink _ _ _ _ _ _ _ _ _ L) osfs_law_user_symlink.
     same_statement (law2_stat _ _ _ _ _ _ _ L2) osfs_law2_stat.
     same_statement (law2_readlink _ _ _ _ _ _ _ L2) osfs_law2_readlink.
     same_statement (law2_open_ro _ _ _ _ _ _ _ L2) osfs_law2_open_ro.
